@@ -36,6 +36,7 @@ typename STPSolver<T>::ParsedPTRef STPSolver<T>::parseRef(PTRef ref) const {
         Pterm &rhsPt = logic.getPterm(rhs);
         PTRef mul{};  // (-1 * y) term
         if (logic.isPlus(rhs)) {  // usual DL inequality with two variables
+            if (rhsPt.size() != 2) { throw ApiException("Atom is not in difference logic: " + logic.pp(ref)); }
             uint8_t ix = logic.isNumVar(rhsPt[0]) ? 0 : 1;
             uint8_t iy = 1 - ix;
             x = rhsPt[ix];
@@ -45,11 +46,14 @@ typename STPSolver<T>::ParsedPTRef STPSolver<T>::parseRef(PTRef ref) const {
             mul = rhs;
         }
 
-        assert(logic.isTimes(mul));
+        // Anything but a variable with coefficient -1 is outside difference logic
+        if (not logic.isTimes(mul)) { throw ApiException("Atom is not in difference logic: " + logic.pp(ref)); }
         Pterm &mulPt = logic.getPterm(mul);
-        assert(logic.isNumConst(mulPt[0]) && logic.getNumConst(mulPt[0]) == -1);
+        if (not (logic.isNumConst(mulPt[0]) and logic.getNumConst(mulPt[0]) == -1 and logic.isNumVar(mulPt[1]))) {
+            throw ApiException("Atom is not in difference logic: " + logic.pp(ref));
+        }
         y = mulPt[1];
-        assert(logic.isNumVar(y));
+        if (x != PTRef_Undef and not logic.isNumVar(x)) { throw ApiException("Atom is not in difference logic: " + logic.pp(ref)); }
     }
     return ParsedPTRef{x, y, Converter<T>::getValue(c)};
 }
